@@ -116,6 +116,7 @@ def _mech(ctx, two_sites=False):
         surf=ChemkinReaction(reactants=[S['A_S'], S['B_S']], reactants_stoich=[1., 1.], products=[S['AB_S'], vac_b], products_stoich=[1., 1.],
                              transition_state=[S['TS1']], transition_state_stoich=[1.], beta=beta[1]),
         des=ChemkinReaction(reactants=[S['AB_S']], reactants_stoich=[1.], products=[S['AB'], S['PT_S']], products_stoich=[1., 2.], beta=beta[2]),
+        des2=ChemkinReaction(reactants=[S['A_S']], reactants_stoich=[2.], products=[S['A2'], S['PT_S']], products_stoich=[1., 2.], beta=beta[2]),
         gas=ChemkinReaction(reactants=[S['A2'], S['B']], reactants_stoich=[1., 2.], products=[S['AB']], products_stoich=[2.],
                             transition_state=[S['TSg']], transition_state_stoich=[1.], beta=beta[3]),
     )
@@ -236,10 +237,10 @@ def h_surf(ctx, two_sites, act, ads, op):
     r_end = texts.index('END', r0)
     rl = [(lines[i], texts[i]) for i in range(r0 + 1, r_end)]
     eqs = [t.split(' ')[0] for _, t in rl if t != 'STICK']
-    ctx.true('exactly the three surface reactions, each once, in order', eqs == ['A2+2PT(S)=2A(S)', 'A(S)+B(S)=AB(S)+%s' % ('CU(S)' if two_sites else 'PT(S)'), 'AB(S)=AB+2PT(S)'])
+    ctx.true('exactly the four surface reactions, each once, in order', eqs == ['A2+2PT(S)=2A(S)', 'A(S)+B(S)=AB(S)+%s' % ('CU(S)' if two_sites else 'PT(S)'), 'AB(S)=AB+2PT(S)', '2A(S)=A2+2PT(S)'])
     ctx.true('STICK follows the adsorption reaction only', [t for _, t in rl].count('STICK') == 1 and rl[1][1] == 'STICK')
     units = 'kcal/mol'
-    for (ln, t), key in zip([x for x in rl if x[1] != 'STICK'], ['ads', 'surf', 'des']):
+    for (ln, t), key in zip([x for x in rl if x[1] != 'STICK'], ['ads', 'surf', 'des', 'des2']):
         r = rx[key]
         toks = _tok_values(ln)
         ctx.true('%s: three numbers' % key, len(toks) == 3)
@@ -284,7 +285,7 @@ def h_EA(ctx, ncond, gas):
     ncount = [t for t in texts if t.endswith('!Number of reactions')]
     body = [(lines[i], t) for i, t in enumerate(texts) if not t.startswith('!') and t not in ('EOF',) and not t.endswith('!Number of reactions')]
     ctx.true('declared number of reactions = reaction lines that follow', len(ncount) == 1 and int(ncount[0].split()[0]) == len(body))
-    keys = ['gas'] if gas else ['ads', 'surf', 'des']
+    keys = ['gas'] if gas else ['ads', 'surf', 'des', 'des2']
     ctx.true('exactly the %s reactions' % ('gas' if gas else 'surface'), len(body) == len(keys))
     if len(body) != len(keys):
         return
